@@ -5,6 +5,7 @@
 -/
 import AHP.Lemmas.IndexInv
 import AHP.Lemmas.TotalObject
+import AHP.Lemmas.TotalIndexModel
 namespace AHP.G3
 open AHP Idx
 
@@ -202,5 +203,44 @@ theorem resetInternal_fold (i : Idx) (es : List Elem) :
         simp only [List.foldl_cons]
         rw [ih2, map_reset_indexOther]
     rw [hk]
+
+
+/-! ### `feed` / `parseStr` of the indexed parser -/
+
+theorem pair_eta {α β : Type} (p : α × β) (b : β) (h : p.2 = b) : p = (p.1, b) := by
+  rw [← h]
+
+/-- **`feed` of the indexed parser from every well-formed state**: a document or MultipleRootNodeException —
+    never a KeyError —, and the index it leaves is well formed (the object stays usable) -/
+theorem idxFeedS_total (view : Nat → Str → List Attr → Elem) {i0 : Idx} {st : IState} (h : IdxOK i0 st)
+    (toks : List Token) :
+    ((idxFeedS view st toks).2 = none ∨ (idxFeedS view st toks).2 = some (.raised .multipleRoot)) ∧
+    Good (idxFeedS view st toks).1.idx := by
+  unfold idxFeedS
+  rcases idxRun_total view toks h with ⟨st', _, g2, _, g4⟩ | ⟨_, g2, _, g4⟩
+  · rw [g2]; exact ⟨Or.inl rfl, g4.1⟩
+  · rw [pair_eta _ _ g2]
+    simp only
+    rcases idxRun_total view (wrapToks toks) (idxOK_reset g4.1) with ⟨st2, _, k2, _, k4⟩ | ⟨_, k2, _, k4⟩
+    · rw [k2]; exact ⟨Or.inl rfl, k4.1⟩
+    · exact ⟨Or.inr k2, k4.1⟩
+
+/-- … and when the text has no end tag of the wrapper it does not raise at all; the tree is the plain parser's -/
+theorem idxFeedS_never_raises (view : Nat → Str → List Attr → Elem) {i0 : Idx} {st : IState} (h : IdxOK i0 st)
+    (toks : List Token) (hw : ∀ t ∈ toks, t ≠ Token.end_ wrapperName) :
+    (idxFeedS view st toks).2 = none ∧
+    (runT st.tree toks = .ok (idxFeedS view st toks).1.tree ∨
+      (runT st.tree toks = .multipleRoot ∧ runT TState.init (wrapToks toks) = .ok (idxFeedS view st toks).1.tree)) := by
+  unfold idxFeedS
+  rcases idxRun_total view toks h with ⟨st', _, g2, g3, _⟩ | ⟨_, g2, g3, g4⟩
+  · rw [g2]; exact ⟨rfl, Or.inl g3⟩
+  · rw [pair_eta _ _ g2]
+    simp only
+    rcases idxRun_total view (wrapToks toks) (idxOK_reset g4.1) with ⟨st2, _, k2, k3, _⟩ | ⟨_, _, k3, _⟩
+    · rw [k2]; exact ⟨rfl, Or.inr ⟨g3, k3⟩⟩
+    · exfalso
+      obtain ⟨s', hs'⟩ := runT_wrapToks_ok toks hw
+      have : (IState.reset (idxRunS view st toks).1).tree = TState.init := rfl
+      rw [this, hs'] at k3; cases k3
 
 end AHP.G3
